@@ -502,6 +502,28 @@ func (g *gx) rw(e ast.Expr) ast.Expr {
 			if cl, ok := x.X.(*ast.CompositeLit); ok {
 				return &ast.UnaryExpr{OpPos: x.OpPos, Op: x.Op, X: g.rw(cl)}
 			}
+			// &b of a local byte slice that is assigned once and never written through: the pointer's target is b's value
+			if id, ok := x.X.(*ast.Ident); ok {
+				if typ, ok := g.t.env[id.Name]; ok && typ.k == "bytes" {
+					writes := 0
+					ast.Inspect(g.d.Body, func(n ast.Node) bool {
+						if as, ok := n.(*ast.AssignStmt); ok {
+							for _, l := range as.Lhs {
+								if isIdent(l, id.Name) {
+									writes++
+								}
+								if ix, ok := l.(*ast.IndexExpr); ok && isIdent(ix.X, id.Name) {
+									writes += 2
+								}
+							}
+						}
+						return true
+					})
+					if writes <= 1 {
+						return g.leaf(x, "(Some "+cname(id.Name)+")", gOpt(tBytes))
+					}
+				}
+			}
 			g.fail(x, "address of something that is not a composite literal")
 		}
 		return &ast.UnaryExpr{OpPos: x.OpPos, Op: x.Op, X: g.rw(x.X)}
@@ -1704,6 +1726,19 @@ func (g *gx) stmts(list []ast.Stmt, k func() string) string {
 		g.fail(st, "unsupported branch statement")
 	case *ast.DeferStmt:
 		return g.deferStmt(st, rest)
+	case *ast.SwitchStmt:
+		// switch tag { case a, b: ... } as an if / else-if chain (the tag is an expression without effects; a break
+		// anywhere inside would leave the switch in Go but the loop in the chain: refused)
+		if st.Init != nil {
+			g.fail(st, "switch with init")
+		}
+		ast.Inspect(st.Body, func(n ast.Node) bool {
+			if b, ok := n.(*ast.BranchStmt); ok && b.Tok != token.CONTINUE {
+				g.fail(b, "break / goto / fallthrough inside a switch")
+			}
+			return true
+		})
+		return g.stmts(append([]ast.Stmt{g.t.switchToIf(st)}, list[1:]...), k)
 	}
 	g.fail(list[0], "unsupported statement %T", list[0])
 	return ""
@@ -2666,7 +2701,7 @@ func (s *gsec) function(key string) string {
 	var outPar []int
 	for i, n := range g.info.pnames {
 		if set[n] {
-			if !isSliceTy(g.info.params[i]) {
+			if !isSliceTy(g.info.params[i]) && !isIterTy(g.info.params[i]) { // a *BytesIterator parameter is returned like a slice parameter
 				panic(genError{fmt.Sprintf("%s: the parameter %s is assigned", key, n)})
 			}
 			outPar = append(outPar, i)
@@ -2703,10 +2738,17 @@ func (s *gsec) record(name string) string {
 func (p *pkg) emitDemuxGen() string {
 	var b strings.Builder
 	b.WriteString(demuxGenHeader)
-	for _, def := range gsections {
+	p.emitGSections(&b, gsections)
+	return b.String()
+}
+
+// emitGSections translates the given sections (also used by restgen.go for PSIData.toData in Gen/RestData.v).
+func (p *pkg) emitGSections(bp *strings.Builder, secs []gsection) {
+	b := bp
+	for _, def := range secs {
 		s := &gsec{p: p, def: def, names: map[string]string{}, funcs: map[string]*gfuncInfo{}, failed: map[string]bool{},
 			records: map[string]bool{}, nilable: map[string]bool{}}
-		fmt.Fprintf(&b, "Section %s.\nVariable W : Type.\n\n", def.name)
+		fmt.Fprintf(b, "Section %s.\nVariable W : Type.\n\n", def.name)
 		s.names["W"] = "Type"
 		for _, key := range def.entries {
 			if d, ok := p.funcs[key]; ok && d.Body != nil {
@@ -2727,7 +2769,7 @@ func (p *pkg) emitDemuxGen() string {
 						b.WriteString(dcl)
 					}
 					s.pending = s.pending[:mark]
-					fmt.Fprintf(&b, "(* NOT TRANSLATED (%s left the translator's grammar): %s *)\n\n", what, strings.ReplaceAll(ge.msg, "*)", "* )"))
+					fmt.Fprintf(b, "(* NOT TRANSLATED (%s left the translator's grammar): %s *)\n\n", what, strings.ReplaceAll(ge.msg, "*)", "* )"))
 				}
 			}()
 			text := f()
@@ -2745,7 +2787,6 @@ func (p *pkg) emitDemuxGen() string {
 			key := key
 			isolate(key, func() string { return s.function(key) })
 		}
-		fmt.Fprintf(&b, "End %s.\n\n", def.name)
+		fmt.Fprintf(b, "End %s.\n\n", def.name)
 	}
-	return b.String()
 }
